@@ -103,7 +103,11 @@ func (b *Body) resolveRole(role string) *ssa.Function {
 		})
 	case "pruneNulls":
 		// the function merge calls on the patch value: takes a node, returns nothing
-		return pick(b.libCalleesOf(b.roleFn("merge")), func(f *ssa.Function) bool {
+		host := b.roleFn("merge")
+		if host == nil {
+			host = b.roleFn("mergeDocs") // merge inlined into the member walk
+		}
+		return pick(b.libCalleesOf(host), func(f *ssa.Function) bool {
 			return sigHas(f, []string{"*jsonpatch.lazyNode"}, nil) && f.Signature.Results().Len() == 0
 		})
 	case "pruneAryNulls":
